@@ -1035,8 +1035,14 @@ func (e *vfEnv) sign(w *vfW, op *vfWOp, where string) *vlib.Failure {
 		b = 1
 	}
 	var key *vfMKey
+	keyIdx := 0
 	if mk != nil && len(mk.Br[b]) > 0 {
-		key = &mk.Br[b][op.N%len(mk.Br[b])]
+		keyIdx = op.N % len(mk.Br[b])
+		if op.N < 0 {
+			// counted from the end: -1 is the key issued last on that branch
+			keyIdx = len(mk.Br[b]) - 1 - ((-op.N - 1) % len(mk.Br[b]))
+		}
+		key = &mk.Br[b][keyIdx]
 	}
 	var pk *pocec.PublicKey
 	foreign := false
@@ -1099,7 +1105,7 @@ func (e *vfEnv) sign(w *vfW, op *vfWOp, where string) *vlib.Failure {
 		if b == 1 {
 			e.st.signedInternal = true
 		}
-		if mk.IssuedLocked[b][op.N%len(mk.Br[b])] {
+		if mk.IssuedLocked[b][keyIdx] {
 			e.st.signedAfterTransition = true
 		}
 	}
@@ -1276,6 +1282,7 @@ var vfBadPass = []string{"", "abc", "12345", "has space in it", "exclaim!mark1",
 var vfRemarks = []string{"", "r", "my wallet", "备注✓", "a\"b\\c", strings.Repeat("R", 70), "  ", "null"}
 
 type vfGenCfg struct {
+	SignFresh  bool // after an issuance, often sign with the key just issued
 	MaxOps     int
 	TwoWallets bool
 	Weights    map[string]int
@@ -1493,7 +1500,13 @@ func vfGenWProg(t *rapid.T, cfg *vfGenCfg) vfWProg {
 		p.Ops = append(p.Ops, vfWOp{K: "new", Seed: rapid.SliceOfN(rapid.Byte(), 32, 32).Draw(t, "seed0"), Pass: "lit:" + vfPassPool[0], S: "first"})
 	}
 	for i := 0; i < n; i++ {
-		p.Ops = append(p.Ops, vfGenWOp(t, cfg))
+		op := vfGenWOp(t, cfg)
+		p.Ops = append(p.Ops, op)
+		if cfg.SignFresh && (op.K == "next" || op.K == "gen") && rapid.IntRange(0, 2).Draw(t, "signFresh") != 0 {
+			// use the key that was just handed out, in the state the wallet is in right now
+			sg := vfWOp{K: "sign", W: op.W, Ks: op.Ks, Int: op.Int && op.K == "next", N: -1, Data: rapid.SliceOfN(rapid.Byte(), 32, 32).Draw(t, "freshHash"), Msg: rapid.Bool().Draw(t, "freshMsg")}
+			p.Ops = append(p.Ops, sg)
+		}
 	}
 	return p
 }
